@@ -88,7 +88,7 @@ def canon(t):
 def _oname(o):
     return {
         list: "list", set: "set", dict: "dict", tuple: "tuple", type: "type", frozenset: "frozenset",
-        collections.defaultdict: "defaultdict",
+        collections.defaultdict: "defaultdict", collections.deque: "deque", collections.OrderedDict: "OrderedDict",
         collections.abc.Iterator: "Iterator", collections.abc.Generator: "Generator",
         collections.abc.Iterable: "Iterable",
     }.get(o) or (o.__module__ + "." + o.__qualname__)
@@ -144,9 +144,9 @@ def _member(v, t, strict):
         return callable(v)
     if o is not None:
         a = args(t)
-        if o in (list, set, frozenset):
+        if o in (list, set, frozenset, collections.deque):
             return isinstance(v, o) and all(_member(e, a[0], strict) for e in v)
-        if o is dict or o is collections.defaultdict:
+        if o is dict or o is collections.defaultdict or o is collections.OrderedDict:
             return isinstance(v, o) and all(
                 _member(k, a[0], strict) and _member(x, a[1], strict) for k, x in v.items()
             )
@@ -223,7 +223,7 @@ def head_exact(v, t):
     if is_bare_callable(t):
         return isinstance(v, CALLABLE_TYPES) and not isinstance(v, type)
     if o is not None:
-        if o in CONTAINER_ORIGINS:
+        if o in CONTAINER_ORIGINS or o in (collections.deque, frozenset, collections.OrderedDict):
             return type(v) is o and sconf(v, t)
         if o is type:
             return isinstance(v, type) and v is args(t)[0]
@@ -281,9 +281,9 @@ def witnessed(t, values, enclosing_empty=False, path="$", top=True, also_witness
                 witnessed(ft, [v[k] for v in inh if k in v], False, f"{sub}.{k}?", False)
             continue
         og = origin(a)
-        if og in (list, set):
+        if og in (list, set, collections.deque, frozenset):
             witnessed(args(a)[0], [e for v in inh for e in v], any(len(v) == 0 for v in inh), sub + "[]", False)
-        elif og in (dict, collections.defaultdict):
+        elif og in (dict, collections.defaultdict, collections.OrderedDict):
             ee = any(len(v) == 0 for v in inh)
             # a dict whose keys are all strings is, by design, described through its keys AS STRINGS (TypedDict fields, and
             # `Dict[str, ...]` when a TypedDict is turned back into a Dict): a key that is an instance of a str subclass
